@@ -103,6 +103,7 @@ inductive Op where
   | trimSeqs (n : Int) (fromStart : Bool)
   | autoAlpha
   | revcomp
+  | replaceChar (name : String) (site : Int) (c : Byte)
 deriving Repr
 
 /-- the float threshold test of the cleaning functions: `cutoff = num/den` as `float64` -/
@@ -166,6 +167,11 @@ def stepOp (b : Bag) : Op → Bag × String
     | some r => (r.1, if r.2 then "err" else "ok")
   | .autoAlpha => ({ b with alphabet := autoAlphabet (b.rows.map (·.seq)) }, "ok")
   | .revcomp => let r := reverseComplement b; (r.1, if r.2 then "err" else "ok")
+  | .replaceChar name site c =>
+    if !b.isAlign then (b, "na") else
+    match replaceChar name site c b with
+    | none => (b, "PANIC")
+    | some r => (r.1, if r.2 then "err" else "ok")
 
 /-- run a history, collecting the states after every step -/
 def runOps : Bag → List Op → List (Bag × String)
